@@ -31,6 +31,11 @@ Reasons(r) ==
                  ELSE {<<"duplicate-finding", p>>}) : p \in Paths }
         \cup UNION { (IF r.sev[k][2] = EffectiveP(cfg.ov, [id |-> r.sev[k][1], sev |-> r.sev[k][3]]) THEN {}
                       ELSE {<<"printed-severity", r.sev[k][1]>>}) : k \in 1..Len(r.sev) }
+        \* the command's own account (--inspect entity): the number of rules applied to each file it visited
+        \cup (IF ~r.inspected THEN {}
+              ELSE UNION { (IF p \notin DOMAIN r.applied \/ r.applied[p] = Cardinality(RulesOn(cfg, p)) THEN {}
+                            ELSE IF r.applied[p] > Cardinality(RulesOn(cfg, p)) THEN {<<"more-rules-applied-than-the-statement-allows", p>>}
+                            ELSE {<<"fewer-rules-applied-than-the-statement-demands", p>>}) : p \in Paths })
         \cup (IF DOMAIN r.fired = Paths THEN {} ELSE {<<"unexpected-file", "">>})
         \cup (IF r.exit = ExitP(ToSet(r.severities)) THEN {} ELSE {<<"exit-status", "">>})
 Drift(r) ==
